@@ -3361,6 +3361,16 @@ class Evaluator:
                 return getattr(recv, meth)(pos[0])
             if isinstance(recv, T) and recv.op == "hex" and isinstance(pos[0], str) and any(c not in "0123456789abcdef" for c in pos[0]):
                 return False
+            # a concatenation whose first (last) part is known decides the test against candidates no longer than that part
+            if isinstance(recv, T) and recv.op == "cat" and recv.args:
+                edge = recv.args[0] if meth == "startswith" else recv.args[-1]
+                cands = list(_unfz(pos[0])) if isinstance(pos[0], (list, tuple)) else [pos[0]]
+                if isinstance(edge, (bytes, str)) and cands and all(type(c_) is type(edge) for c_ in cands):
+                    # a candidate longer than the known part can only match if the known part is its beginning (end)
+                    if any(len(c_) <= len(edge) and getattr(edge, meth)(c_) for c_ in cands):
+                        return True
+                    if not any(len(c_) > len(edge) and getattr(c_, meth)(edge) for c_ in cands):
+                        return False
             return T(meth, (recv, pos[0]), tm.BOOL)
         if meth == "format" and isinstance(recv, str):
             # "a{}b".format(x): the same concatenation an f-string gives (plain fields only)
